@@ -173,7 +173,7 @@ func c12(c *Check) {
 			id := "aggregate/types.(TokenPair).GetID(" + p + ")"
 			a := c.P.ArgExprs(dm[0])
 			c.Req(a[3].String() == id, "C12/three-way-write", funcName(add)+"/added denom indexed under the pair's id", dm[0].Ins.Pos(), "", "added denomination is indexed under "+trunc(a[3].String())+" instead of the stored pair's id")
-			c.Req(strings.Contains(p, "[" + a[2].String() + "]"), "C12/three-way-write", funcName(add)+"/indexed denom is the appended denom", dm[0].Ins.Pos(), "", "the denomination indexed ("+a[2].String()+") is not the one appended to pair.Denoms")
+			c.Req(strings.Contains(p, "["+a[2].String()+"]"), "C12/three-way-write", funcName(add)+"/indexed denom is the appended denom", dm[0].Ins.Pos(), "", "the denomination indexed ("+a[2].String()+") is not the one appended to pair.Denoms")
 			// id unchanged guard
 			found := false
 			for g := range c.P.FA(add).GuardSet() {
